@@ -19,6 +19,8 @@ GUARDS = [
     (r"detB (P\.)?S = true", "(family_det _ {hS})"),
     (r"S\.fillersOKB = true", "(family_fillersOK _ {hS})"),
     (r"S\.wrapOKB = true", "(family_wrapOK _ {hS})"),
+    (r"S\.labelsOKB = true", "(family_labelsOK _ {hS})"),
+    (r"textStableC S = true", "(family_textStableC _ {hS})"),
     (r"C01\.TextStable S", "(textLoop_of_B _ (family_textLoop _ {hS})).stable"),
     (r"LeafEmpty S", "(leafEmpty_of_B (family_leafEmpty _ {hS}))"),
     (r"LiveSchema S", "(liveSchema_of_ok " + OK + ")"),
@@ -38,12 +40,16 @@ GUARDS = [
 TARGETS = {
     "C01": ["addMark_applies", "removeMark_applies"],
     "C04": ["replace_undo_transitive", "removeMarkStep_undo", "addMarkStep_undo", "markHistory_undo", "markHistory_undo_bmp",
-            "family_step", "family_history_undo", "family_history_undo_run"],
+            "family_step", "family_history_undo", "family_history_undo_run", "opHistory_undo", "structHistory_undo_bmp"],
     "C11": ["fitStep_decreases", "fitLoop_outOfFuel_exact", "fitLoop_terminates", "replaceStep_outOfFuel_cycle",
             "replaceStep_not_outOfFuel", "fit_no_internal_partial", "replaceStep_total_partial", "delete_total",
-            "delete_total_respects", "deleteRange_total", "insertInline_total"],
-    "C12": ["canJoin_join_applies", "liftTarget_lift_applies_flat", "liftTarget_lift_applies"],
-    "C13": ["stepAll_total", "addMark_total", "removeMark_total", "addMark_total_effect", "removeMark_total_effect"],
+            "delete_total_respects", "deleteRange_total", "insertInline_total", "fit_emits_wf", "coherent_invariant",
+            "inStep_invariant", "delete_emits_wf", "deleteRange_emits_wf", "insertInline_emits_wf"],
+    "C12": ["canJoin_join_applies", "liftTarget_lift_applies_flat", "liftTarget_lift_applies", "insertPoint_insert_applies",
+            "dropPoint_drop_applies_closed", "joinPoint_join_applies", "insertPoint_insert_text_applies",
+            "insertPoint_insert_marked_top"],
+    "C13": ["stepAll_total", "addMark_total", "removeMark_total", "addMark_total_effect", "removeMark_total_effect",
+            "fillOutcome_step_wf", "fillOutcome_step_notext"],
     "C15": ["findWrapping_complete", "findWrapping_shortest_complete", "findWrappingTypes_eq",
             "findWrappingTypes_shortest_complete", "findWrappingTypes_sound_shortest", "findWrapping_sound", "createAndFill_valid", "createAndFill_nothing_iff", "createAndFill_raises",
             "createAndFillO_iff", "createAndFill0_iff", "createAndFillDom_iff", "createAndFillO_valid", "createAndFill0_valid",
